@@ -11,11 +11,11 @@ LEVEL = 'exploration'
 TIERS = {'quick': 4000, 'thorough': 150000}
 RULE = ('seeded pushes of a real file, a BytesIO or a real directory (1-5 regular files, process cwd elsewhere with same-named decoy files or decoy directories, listdir order '
         'from the scenario) with sizes biased to 0, 1, chunk+-1, maxdata+-k, exact send-buffer fits and multiples of the chunk size, maxdata 4 KiB..1 MiB, '
-        'device paths up to 1024 bytes, mode/mtime values (0 => now), progress callback absent / counting / raising / re-entering the device with a stat() (sync), BytesIO sources positioned past their start, one object connected twice to devices announcing different maxdata, sync and async; the device\'s '
+        'device paths up to 1024 bytes, mode/mtime values (0 => now), progress callback absent / counting / raising (an Exception or a bare BaseException) / re-entering the device with a stat() (sync), BytesIO sources positioned past their start, one object connected twice to devices announcing different maxdata, a tenth of the cases against a device that answers FAIL (the call must raise), sync and async; the device\'s '
         'sync service decodes the stream. Cases with a callback are run again without it and the host packet logs compared. '
         'non-trivial = >= 2 host WRTEs on a sync stream or a directory push; distinct = event-log digests')
 ASSUMPTIONS = ['local filesystem is a real temp dir per process; content is fully generated']
-EXPECT_PROBES = {'all': ['c07_dir_push', 'c07_exact_fit', 'c07_callback', 'c07_multi_wrte', 'c07_file_source', 'c07_reentrant_callback', 'c07_reconnect_other_maxdata', 'c07_positioned_bytesio']}
+EXPECT_PROBES = {'all': ['c07_dir_push', 'c07_exact_fit', 'c07_callback', 'c07_multi_wrte', 'c07_file_source', 'c07_reentrant_callback', 'c07_reconnect_other_maxdata', 'c07_positioned_bytesio', 'c07_rejected_push']}
 OWN = ('push-duplicate', 'push-missing', 'push-incomplete', 'push-content', 'push-mode', 'push-mtime', 'push-chunk', 'push-early-return', 'push-extra',
        'callback-count', 'callback-total', 'wrte-over-maxdata', 'cb-changes-wire', 'unexpected-exception', 'timeout-instead-of-result', 'hang', 'no-termination',
        'wrong-exception', 'missing-exception')
@@ -58,7 +58,7 @@ def generate(seed, tier):
         path = '/data/local/tmp/' + g.pick(['p', 'ü', 'a,b', 'x' * g.int(1, 200), 'y' * g.pick([900, 1000])]) + str(g.int(0, 999))
         mode = g.pick([0o100644, 0o100777, 33272, 0o100600])
         kind = g.pick(['bytesio', 'bytesio', 'file', 'file', 'dir'])
-        op = {'op': 'push', 'src': kind, 'path': path, 'mode': mode, 'mtime': g.pick([0, 0, 1, 65535, 65536, 1234567890, 0xFFFFFFFF]), 'cb': g.pick([None, None, 'count', 'raise'])}
+        op = {'op': 'push', 'src': kind, 'path': path, 'mode': mode, 'mtime': g.pick([0, 0, 1, 65535, 65536, 1234567890, 0xFFFFFFFF]), 'cb': g.pick([None, None, 'count', 'raise', 'raise_base'])}
         if g.chance(0.2):
             del op['mode']
         if kind == 'dir':
@@ -95,6 +95,14 @@ def generate(seed, tier):
         if second.get('src') == 'dir':
             d['cmds']['mkdir ' + second['path']] = {'content': {'size': 0}, 'cuts': []}
         ops = ops + [{'op': 'maxchunk'}, {'op': 'close'}, {'op': 'connect'}, second, {'op': 'maxchunk'}]
+    if not reconnect and g.chance(0.1):
+        # "push returns normally only after the device's sync OKAY": the device answers FAIL instead (at SEND, at a DATA record or
+        # as the final status), for every source kind -- the call must raise
+        d['push_fail'] = {'at': g.pick(['send', 'data', 'done', 'done']), 'n': g.int(1, 4), 'reason': g.pick([b'Read-only file system', b'No space left on device', b'']).hex(), 'cut_reason': g.chance(0.3)}
+        d['fail_before_okay'] = g.chance(0.4)
+        for op in ops:
+            if op.get('cb') == 'reenter':
+                op['cb'] = 'count'
     cfg = S.gen_config(g, 2000)
     scn = {'api': g.pick(['sync', 'async']), 'transport': 'mem', 'device': d, 'config': cfg, 'actors': [[S.timeouts(g, {'op': 'connect'})] + ops], 'object': {'banner': 'simhost'}}
     return {'seed': seed, 'scn': scn}
@@ -133,6 +141,8 @@ def evaluate(case, tapes=None):
         pr['c07_reconnect_other_maxdata'] = 1
     if any(op.get('src_pos') for op in ops):
         pr['c07_positioned_bytesio'] = 1
+    if scn['device'].get('push_fail') and any(not r['ok'] and r['op'] == 'push' for r in run.results[0]):
+        pr['c07_rejected_push'] = 1
     if any(op.get('cb') == 'reenter' for op in ops) and scn['api'] == 'sync':
         pr['c07_reentrant_callback'] = 1
     multi = any(len(s.recv_payloads) >= 2 for s in run.device.all_streams)
